@@ -10,6 +10,9 @@ tie   : (1b) stream immatrix — the real geom::IntersectionMatrix (isXxx, match
             matrices / dimensions / patterns vs Base/IM, the object of the named_*_eq_pattern theorems
         (1) stream pred-sm  — the REAL RelatePredicate classes are driven with random event sequences and
             compared step by step with the Lean state machine;
+        (1c) stream prep-core — the REAL prepared-polygon fast-path classes (contains / covers / containsProperly / intersects and the
+            PreparedPolygon wrappers) against the decision core of Model/Relate/PrepPoly.lean (theorems Props/C01Prep.lean) on facts
+            computed exactly on the lattice by the harness; a difference is re-examined with the exact reference matrix;
         (2) stream relate-grid — generated valid grid pairs through every relate path of the C API; the
             driver evaluates the independent exact reference matrix (Model/Relate/Ref.lean) and what the
             proved definitions assign to it.  A difference *is* a violation of C01 (impl != exact DE-9IM).
@@ -19,7 +22,7 @@ import verif, gtok
 from verif import log
 
 LEVEL = "proof"
-PROPS = ["GeosModel.Props.C01"]
+PROPS = ["GeosModel.Props.C01", "GeosModel.Props.C01Prep"]
 DRV = "drv_c01"
 ENTRY = ["II", "IB", "IE", "BI", "BB", "BE", "EI", "EB", "EE"]
 
@@ -247,6 +250,37 @@ def run(ctx):
                       {"kind": "failing-input", "stream": "immatrix", "case": case, "impl": exp, "model": got,
                        "fields": "M <matrix> <dimA> <dimB> <pattern> -> disjoint intersects touches crosses within contains equals overlaps covers coveredBy | matches capiMatch | transpose"},
                       signature={"class": "immatrix"})
+
+    # ---- (1c) the decision core of the prepared-polygon fast paths (PreparedPolygonContains / Covers / ContainsProperly / Intersects and the
+    # PreparedPolygon wrappers) vs Model/Relate/PrepPoly.lean on facts computed exactly on the lattice (theorems: Props/C01Prep.lean)
+    r = verif.run_stream(exe, "prep-core", ctx.seed, 80000 if quick else 2000000, ctx.work, shards=8, driver_exe=DRV)
+    corr["prep-core"] = {"cases": r["cases"], "disagreements": len(r["disagreements"]) + r.get("more_disagreements", 0), "distribution": r["stats"]}
+    ctx.cov["samples"] += r.get("samples", [])[:1]
+    if r["error"]:
+        ctx.violation("stream prep-core could not run: " + r["error"], {"kind": "tie-broken", "correspondence": "prep-core", "detail": r["error"]}, nofail=True)
+    else:
+        names8 = ["PreparedPolygonContains", "PreparedPolygonCovers", "PreparedPolygonContainsProperly", "PreparedPolygonIntersects", None,
+                  "PreparedPolygon::contains", "PreparedPolygon::covers", "PreparedPolygon::containsProperly", "PreparedPolygon::intersects"]
+        seen_pc = []
+        for idx, case, exp, got in sorted(r["disagreements"], key=lambda d: len(d[1])):
+            which = [names8[i] for i in range(min(len(exp), len(got), 9)) if exp[i] != got[i] and names8[i]] or ["format"]
+            if which in seen_pc or len(seen_pc) >= 4:
+                continue
+            seen_pc.append(which)
+            a, b, obs = split_case(case)
+            # is the pair a failing input of the property itself?  ask the exact reference (relate-grid path) about the prepared answers
+            v, _ = evaluate(exe, a, b)
+            confirmed = bool(v) and v.startswith("bad") and kind_of(v)[0] == "pred-prepared"
+            if confirmed:
+                found_input = True
+            ctx.violation("prepared-polygon fast path answers %s, the decision core of Model/Relate/PrepPoly.lean on the exact lattice facts answers %s (%s differ)%s"
+                          % (exp, got, ", ".join(which), ": the prepared predicates differ from the exact DE-9IM of this pair (%s)" % v if confirmed else ""),
+                          {"kind": "failing-input" if confirmed else "tie-broken", "stream": "prep-core", "correspondence": "prep-core", "case": case, "impl": exp, "model": got,
+                           "A": a, "B": b, "A_wkt": gtok.wkt(a), "B_wkt": gtok.wkt(b), "reference_verdict": v,
+                           "fields": "K | target | test | tl=test component locations in the target, si/pr/np=segment intersection (any/proper/non-proper), rl=locations of the "
+                                     "target's ring points in the test area, fc/fv=full contains/covers, pie/pu/d2/pg/ss/n=shape facts, ec/ei=envelope covers/intersects; "
+                                     "answers: contains covers containsProperly intersects of the four classes, then of the PreparedPolygon wrappers"},
+                          nofail=not confirmed, signature={"class": "prep-core", "answers": "+".join(which)})
 
     # ---- (2) whole-engine correspondence against the exact reference matrix
     n = 16000 if quick else 600000
